@@ -66,6 +66,12 @@ def items(tier, seed):
                     for outer in (True, False, "only"):
                         for temp in (0.01, 1.0):
                             its.append({"kind": "A", "inputs": list(inputs), "output": output, "size": size, "init": init, "pre": pre, "target": kind, "outer": outer, "temp": temp, "tier": tier})
+    # the same networks under multi-character labels that share characters (k1, k12, k2, k13, ...): labels are opaque keys
+    for ni, (inputs, output, size) in enumerate(nets):
+        rin, rout, rsize = relabel(inputs, output, size)
+        for kind in ("size", "slices", "overhead"):
+            for temp in ((1.0,) if tier == "quick" else (0.01, 1.0)):
+                its.append({"kind": "A", "inputs": rin, "output": rout, "size": rsize, "init": "greedy", "pre": None, "target": kind, "outer": True, "temp": temp, "tier": tier})
     # part C: the tree.slice front end (reslice / inplace solver-chosen) on fresh and on already sliced trees
     for ni, (inputs, output, size) in enumerate(nets):
         labels = skel.all_labels(inputs)
@@ -80,10 +86,19 @@ def items(tier, seed):
     return its
 
 
+def relabel(inputs, output, size):
+    labels = skel.all_labels(inputs, output)
+    names = []
+    for i in range(len(labels)):
+        names.append(f"k{i // 2 + 1}" if i % 2 == 0 else f"k1{i // 2 + 2}")
+    mp = dict(zip(labels, names))
+    return [[mp[c] for c in t] for t in inputs], [mp[c] for c in output], {mp[c]: d for c, d in size.items()}
+
+
 def make_tree(item):
     from checks.c02 import initial_tree
 
-    inputs, output, size = tuple(item["inputs"]), item["output"], item["size"]
+    inputs, output, size = tuple(tuple(t) for t in item["inputs"]), tuple(item["output"]), item["size"]
     tree = initial_tree(inputs, output, size, item["init"])
     if item["pre"]:
         tree.remove_ind_(item["pre"])
@@ -168,6 +183,12 @@ def run_A(item, rec):
                     err = repr(e)
                     rec.refute(ctx, True, "slice search raised", lambda m: dict(case=dict(case, max_repeats=max_repeats, how=how), ix_sl=[], predicted={}, actual={}, raised=err,
                                                                                  target=float(symx.eval_model(m, tval)), signature=["C07A", case["inputs"], case["pre"], kind, str(outer), how, "raised", type(e).__name__]))
+                    return None
+                if not set(ix_sl) <= set(tree0.size_dict):
+                    # the finder returned something that is not a set of indices of this network
+                    got = sorted(map(str, ix_sl))
+                    rec.refute(ctx, True, "slice search raised", lambda m: dict(case=dict(case, max_repeats=max_repeats, how=how), ix_sl=got, predicted={}, actual={}, raised="returned labels are not indices of the network",
+                                                                                 target=float(symx.eval_model(m, tval)), signature=["C07A", case["inputs"], case["pre"], kind, str(outer), how, "not-indices"]))
                     return None
                 bads, tb, act = judge(tree0, ix_sl, cost, kind, tval, outer)
                 bad_conc = any(b is True or (isinstance(b, bool) and b) for b in bads)
@@ -369,6 +390,34 @@ def replay(v):
     item = dict(case)
     tree0 = make_tree(item)
     tree0.contract_stats()
+    if "raised" in v:
+        # the search raised something no caller can expect, or returned labels that are not indices: ordinary seeds, the model's target
+        import signal
+        from cotengra.slicer import SliceFinder
+
+        kind0 = case["target"]
+        tv = v["target"] if kind0 == "overhead" else int(v["target"])
+        kw = {"size": dict(target_size=tv), "slices": dict(target_slices=tv), "overhead": dict(target_overhead=tv)}[kind0]
+
+        def _alarm(*a):
+            raise TimeoutError("slice search did not terminate within 20 s")
+
+        for seed in range(8):
+            old_h = signal.signal(signal.SIGALRM, _alarm)
+            signal.alarm(20)
+            try:
+                sf = SliceFinder(tree0, temperature=case["temp"], allow_outer=case["outer"], seed=seed, **kw)
+                ix_sl, _ = sf.search(case.get("max_repeats", 1))
+            except (RuntimeError, ValueError, KeyError):
+                continue
+            except Exception as e:  # noqa
+                return True, f"SliceFinder.search(target_{kind0}={tv}, seed={seed}) on labels {sorted(tree0.size_dict)}: {e!r}"
+            finally:
+                signal.alarm(0)
+                signal.signal(signal.SIGALRM, old_h)
+            if not set(ix_sl) <= set(tree0.size_dict):
+                return True, f"SliceFinder.search(target_{kind0}={tv}, seed={seed}) returned {sorted(map(str, ix_sl))}, not indices of the network {sorted(tree0.size_dict)}"
+        return False, "search returned index sets of the network on 8 seeds"
     cost = ContractionCosts.from_contraction_tree(tree0)
     for ix in v["ix_sl"]:
         cost = cost.remove(ix)
